@@ -19,6 +19,9 @@ import (
 // State holds the objects a stateful history refers to by handle.
 type State struct {
 	objs map[string]interface{}
+	// unhashed: the value inserted by the current set/app/chg is handed over without ever having
+	// been hashed (ops setu/appu/chgu); per State, so that concurrent executors do not share it
+	unhashed bool
 }
 
 type execFn func(st *State, args []string) string
